@@ -127,6 +127,35 @@ type c17Case struct {
 	SST    []c17SI    `json:"sst"`
 	Sheets []c17Sheet `json:"sheets"`
 	Xml    c17Xml     `json:"xml"` // spelling of workbook.xml, relationships and cell attributes
+	// ValSp: the value alphabet of the string cells (a special character after the token)
+	ValSp string `json:"valsp"`
+}
+
+// the special piece of a string value: token + special + "z"
+var c17Specials = map[string]string{"none": "", "": "", "pipe": "|z", "bslash": "\\z", "star": "*z", "under": "_z", "tick": "`z", "lt": "<z", "nl": "\nz"}
+
+// c17ApplyAlphabet rewrites the abstract string values of a decoded case: kind "t" becomes
+// "t:<suffix>", which c17Content renders and c17Project recognises.
+func (c *c17Case) applyAlphabet() {
+	suf := c17Specials[c.ValSp]
+	if suf == "" {
+		return
+	}
+	fix := func(d *c17Disp) {
+		if d.K == "t" {
+			d.K = "t:" + suf
+		}
+	}
+	for s := range c.Sheets {
+		for i := range c.Sheets[s].Cells {
+			fix(&c.Sheets[s].Cells[i].D)
+		}
+		for r := range c.Sheets[s].Rows {
+			for k := range c.Sheets[s].Rows[r].Cells {
+				fix(&c.Sheets[s].Rows[r].Cells[k].D)
+			}
+		}
+	}
 }
 
 type c17Xml struct {
@@ -165,6 +194,9 @@ func c17RefStr(r c17Ref) string { return c17Letters(r.Col) + c17Digits(r.Row) }
 
 // c17Content renders the abstract content of a cell.
 func c17Content(d c17Disp) string {
+	if strings.HasPrefix(d.K, "t:") {
+		return c17Tok(d.V) + d.K[2:]
+	}
 	switch d.K {
 	case "t":
 		return c17Tok(d.V)
@@ -178,12 +210,15 @@ func c17Content(d c17Disp) string {
 	return ""
 }
 
-var c17TokRe = regexp.MustCompile(`^w(\d{3,})$`)
+var c17TokRe = regexp.MustCompile(`(?s)^w(\d{3,})(.*)$`)
 
 // c17Project maps a displayed string back to the abstract value.
 func c17Project(s string) (c17Disp, bool) {
 	if m := c17TokRe.FindStringSubmatch(s); m != nil {
 		n, _ := strconv.Atoi(m[1])
+		if m[2] != "" {
+			return c17Disp{"t:" + m[2], n}, true
+		}
 		return c17Disp{"t", n}, true
 	}
 	switch strings.ToUpper(s) {
@@ -207,7 +242,7 @@ func c17Workbook(c *c17Case) *ooxmlw.XWorkbook {
 	wb := &ooxmlw.XWorkbook{Extras: true, InfraFirst: true, Sp: ooxmlw.Spelling{Rev: c.Xml.Rev, RelPrefix: c.Xml.Prefix, Single: c.Xml.Single,
 		Foreign: c.Xml.Foreign, OpenClose: c.Xml.OC, Gaps: c.Xml.Gaps, Decl: c.Xml.Decl}}
 	for _, e := range c.SST {
-		wb.SST = append(wb.SST, ooxmlw.XSI{Text: c17Tok(e.V), Rich: e.Rich, Empty: e.Empty})
+		wb.SST = append(wb.SST, ooxmlw.XSI{Text: c17Tok(e.V) + c17Specials[c.ValSp], Rich: e.Rich, Empty: e.Empty})
 	}
 	for i, sh := range c.Sheets {
 		xs := ooxmlw.XSheet{Name: fmt.Sprintf("Sheet%d", i+1), SheetID: i + 1, RID: fmt.Sprintf("rId%d", i+1),
@@ -280,13 +315,14 @@ func c17ParseMarkdownRow(line string) []string {
 	var cur strings.Builder
 	for i := 0; i < len(line); i++ {
 		ch := line[i]
-		if ch == '\\' && i+1 < len(line) {
+		// CommonMark: a backslash before ASCII punctuation is an escape, elsewhere it is a backslash
+		if ch == '\\' && i+1 < len(line) && strings.ContainsRune("!\"#$%&'()*+,-./:;<=>?@[\\]^_`{|}~", rune(line[i+1])) {
 			cur.WriteByte(line[i+1])
 			i++
 			continue
 		}
 		if ch == '|' {
-			cells = append(cells, strings.TrimSpace(cur.String()))
+			cells = append(cells, c17Entities(strings.TrimSpace(cur.String())))
 			cur.Reset()
 			continue
 		}
@@ -299,6 +335,10 @@ func c17ParseMarkdownRow(line string) []string {
 		cells = cells[1:]
 	}
 	return cells
+}
+
+func c17Entities(s string) string {
+	return strings.NewReplacer("&lt;", "<", "&gt;", ">", "&amp;", "&", "&#124;", "|").Replace(s)
 }
 
 var c17SepRe = regexp.MustCompile(`^\|(\s*:?-+:?\s*\|)+\s*$`)
@@ -588,6 +628,24 @@ func c17Compare(view, rule string, sh int, exp []c17Exp, covered []c17Pos, kinds
 			dc = minC - minX
 		}
 	}
+	// a line break inside a value breaks the line structure of tab-separated text: such sheets are
+	// not asserted in the text views (grid, Markdown, model and Tables() are)
+	if strings.Contains(view, "tsv") || strings.Contains(view, "Text") {
+		for _, e := range exp {
+			if strings.Contains(e.D.K, "\n") {
+				return nil
+			}
+		}
+	}
+	// the view's own folding: Markdown shows a line break inside a cell as a space
+	if strings.Contains(view, "md") || strings.Contains(view, "Markdown") || strings.Contains(view, "chunks") {
+		folded := make([]c17Exp, len(exp))
+		for i, e := range exp {
+			e.D.K = strings.ReplaceAll(e.D.K, "\n", " ")
+			folded[i] = e
+		}
+		exp = folded
+	}
 	expAt := map[c17Pos]c17Disp{}
 	for _, e := range exp {
 		expAt[c17Pos{e.C, e.R}] = e.D
@@ -692,6 +750,17 @@ func c17Compare(view, rule string, sh int, exp []c17Exp, covered []c17Pos, kinds
 	}
 }
 
+func c17HasNL(exps [][]c17Exp) bool {
+	for _, es := range exps {
+		for _, e := range es {
+			if strings.Contains(e.D.K, "\n") {
+				return true
+			}
+		}
+	}
+	return false
+}
+
 // c17SpanOK: a span is the region's size, or that size clipped to the extent of the view.
 func c17SpanOK(got, full, start, extent int) bool {
 	clipped := extent - start + 1
@@ -789,6 +858,9 @@ func c17Check(v *c17Views, exps [][]c17Exp, covered [][]c17Pos, kinds []map[c17P
 		if w.name == "tables" && v.Tables == nil {
 			continue
 		}
+		if w.name == "tsv" && c17HasNL(exps) {
+			continue // a line break inside a value anywhere makes the line structure of the whole text ambiguous
+		}
 		if e, ok := v.Err[w.name]; ok {
 			return &c17Mismatch{View: w.name, Symptom: "error", What: e}
 		}
@@ -810,7 +882,7 @@ func c17Check(v *c17Views, exps [][]c17Exp, covered [][]c17Pos, kinds []map[c17P
 		if w.name == "grid" && len(v.Accessor) > 0 {
 			return &c17Mismatch{View: "grid", Symptom: "accessor", What: v.Accessor[0]}
 		}
-		if w.name == "tsv" && len(v.TsvExtra) > 0 {
+		if w.name == "tsv" && len(v.TsvExtra) > 0 && !c17HasNL(exps) {
 			return &c17Mismatch{View: "tsv", Symptom: "extra", What: fmt.Sprintf("text has %d more non-empty fields after the last sheet, e.g. %q", len(v.TsvExtra), v.TsvExtra[0].Raw)}
 		}
 	}
@@ -853,6 +925,7 @@ func c17Replay(i int, raw []byte) Result {
 	if err := json.Unmarshal(raw, &c); err != nil {
 		return fail("decode", "decode", err.Error(), nil)
 	}
+	c.applyAlphabet()
 	res := Result{OK: true, Nontrivial: c17Nontrivial(&c), Key: c17Key(raw), Evals: 4}
 	path, err := c17WriteFile(c17Workbook(&c).Members(), ".xlsx")
 	if err != nil {
@@ -992,6 +1065,7 @@ func c17SelfTest(i int, raw []byte) Result {
 	if err := json.Unmarshal(raw, &c); err != nil {
 		return fail("decode", "decode", err.Error(), nil)
 	}
+	c.applyAlphabet()
 	ms := c17Workbook(&c).Members()
 	data, err := ooxmlw.Zip(ms)
 	if err != nil {
